@@ -63,9 +63,9 @@ func legacySeal(key *[32]byte, nonce [24]byte, m []byte) []byte {
 // base64 passphrase with a BLAKE2b-16 salt.)
 
 type BoxCase struct {
-	Pass    string `json:"pass"`   // hex
-	Len     int    `json:"len"`    // plaintext length
-	Fill    int    `json:"fill"`   // plaintext pattern seed
+	Pass    string `json:"pass"`    // hex
+	Len     int    `json:"len"`     // plaintext length
+	Fill    int    `json:"fill"`    // plaintext pattern seed
 	Corrupt string `json:"corrupt"` // none bitflip subst trunc extend nonceswap wrongpass
 	Pos     int    `json:"pos"`
 	Legacy  bool   `json:"legacy"` // exercise the earlier format
